@@ -31,8 +31,8 @@ func refcounterRemove(c *core.Ctx, rule string) {
 		c.Undecided(rule, f.Name(), f.Decl.Pos(), "refcounter fields not found")
 		return
 	}
-	onStack := map[types.Object]bool{}
 	var isAlias func(e ast.Expr, depth int) bool
+	onStack := map[types.Object]bool{}
 	isAlias = func(e ast.Expr, depth int) bool {
 		e = core.Unparen(e)
 		if core.FieldOf(f.Pkg, e) == items {
@@ -43,11 +43,8 @@ func refcounterRemove(c *core.Ctx, rule string) {
 			return x.Low == nil && x.High == nil && isAlias(x.X, depth+1)
 		case *ast.Ident:
 			o := f.Pkg.TypesInfo.ObjectOf(x)
-			if o == nil {
-				return false
-			}
-			if onStack[o] {
-				return true // x = x[:] and the like
+			if o == nil || onStack[o] {
+				return o != nil
 			}
 			onStack[o] = true
 			defer delete(onStack, o)
@@ -78,104 +75,7 @@ func refcounterRemove(c *core.Ctx, rule string) {
 	}
 	idx := core.ObjOf(f.Pkg, loop.Key)
 	isIdx := func(e ast.Expr) bool { return e != nil && core.ObjOf(f.Pkg, e) == idx && idx != nil }
-	isIdxPlus1 := func(e ast.Expr) bool {
-		be, ok := core.Unparen(e).(*ast.BinaryExpr)
-		if !ok || be.Op != token.ADD {
-			return false
-		}
-		v := core.ConstOf(f.Pkg, be.Y)
-		return isIdx(be.X) && v != nil && v.ExactString() == "1"
-	}
-	var isLast func(e ast.Expr, depth int) bool
-	isLast = func(e ast.Expr, depth int) bool { // len(L)-1, or a local defined as that
-		if depth > 3 {
-			return false
-		}
-		e = core.Unparen(e)
-		if be, ok := e.(*ast.BinaryExpr); ok && be.Op == token.SUB {
-			v := core.ConstOf(f.Pkg, be.Y)
-			call, isCall := core.Unparen(be.X).(*ast.CallExpr)
-			if v == nil || v.ExactString() != "1" || !isCall || len(call.Args) != 1 {
-				return false
-			}
-			fn, ok := call.Fun.(*ast.Ident)
-			return ok && fn.Name == "len" && isAlias(call.Args[0], 0)
-		}
-		if id, ok := e.(*ast.Ident); ok {
-			o := f.Pkg.TypesInfo.ObjectOf(id)
-			defs := core.DefsOf(f, o)
-			if len(defs) != 1 {
-				return false
-			}
-			return isLast(defs[0], depth+1)
-		}
-		return false
-	}
-	isTruncByOne := func(e ast.Expr) bool {
-		se, ok := core.Unparen(e).(*ast.SliceExpr)
-		return ok && se.Low == nil && se.High != nil && isAlias(se.X, 0) && isLast(se.High, 0)
-	}
-	// collect the statements of the deletion
-	var copyShift, appendDel, swapIn, truncStore, otherStore bool
-	var wrong string
-	var wrongPos token.Pos
-	ast.Inspect(loop.Body, func(n ast.Node) bool {
-		switch s := n.(type) {
-		case *ast.ExprStmt:
-			call, ok := s.X.(*ast.CallExpr)
-			if !ok {
-				return true
-			}
-			if fn, ok := call.Fun.(*ast.Ident); ok && fn.Name == "copy" && len(call.Args) == 2 {
-				d, ok1 := core.Unparen(call.Args[0]).(*ast.SliceExpr)
-				sr, ok2 := core.Unparen(call.Args[1]).(*ast.SliceExpr)
-				if ok1 && ok2 && isAlias(d.X, 0) && isAlias(sr.X, 0) {
-					if isIdx(d.Low) && d.High == nil && isIdxPlus1(sr.Low) && sr.High == nil {
-						copyShift = true
-					} else {
-						wrong, wrongPos = "the tail is not shifted onto the matched index (copy(L[i:], L[i+1:]) expected)", s.Pos()
-					}
-				}
-			}
-		case *ast.AssignStmt:
-			if len(s.Lhs) != 1 || len(s.Rhs) != 1 {
-				return true
-			}
-			lhs, rhs := core.Unparen(s.Lhs[0]), core.Unparen(s.Rhs[0])
-			if ie, ok := lhs.(*ast.IndexExpr); ok && isAlias(ie.X, 0) {
-				// element write: only L[i] = L[last] is a deletion step
-				re, ok := rhs.(*ast.IndexExpr)
-				if ok && isAlias(re.X, 0) && isIdx(ie.Index) && isLast(re.Index, 0) {
-					swapIn = true
-				} else {
-					wrong, wrongPos = "an element other than the matched one is overwritten (L[i] = L[len(L)-1] expected, found "+core.ExprString(lhs)+" = "+core.ExprString(rhs)+")", s.Pos()
-				}
-				return true
-			}
-			if core.FieldOf(f.Pkg, lhs) == items {
-				switch {
-				case isTruncByOne(rhs):
-					truncStore = true
-				case isAppendDelete(f, rhs, isAlias, isIdx, isIdxPlus1):
-					appendDel = true
-				case isAlias(rhs, 0):
-					// storing an alias back: neutral
-				default:
-					otherStore = true
-					wrong, wrongPos = "the item list is replaced by "+core.ExprString(rhs)+", which is not a recognised deletion of the matched index", s.Pos()
-				}
-			}
-		}
-		return true
-	})
-	ok := wrong == "" && !otherStore && ((copyShift && truncStore && !swapIn) || (swapIn && truncStore && !copyShift) || (appendDel && !truncStore && !copyShift && !swapIn))
-	pos := loop.Pos()
-	if wrongPos.IsValid() {
-		pos = wrongPos
-	}
-	if wrong == "" && !ok {
-		wrong = "the deletion is not one of the recognised idioms (shift+truncate, append(L[:i], L[i+1:]...), swap-with-last+truncate)"
-	}
+	ok, wrong, pos := sliceDeletion(f, items, isIdx, loop.Body)
 	c.Check(ok, rule, f.Name()+" deletes the matched entry", pos, wrong+": when a value's count drops to zero a different entry leaves the list (or the matched one stays), so another session's local ASN / cluster ID stops being recognised as a loop")
 	// the decrement and the deletion sit under "this entry's value is the requested one"
 	okDec := false
@@ -235,4 +135,142 @@ func isAppendDelete(f *core.Fn, e ast.Expr, isAlias func(ast.Expr, int) bool, is
 	a, ok1 := core.Unparen(call.Args[0]).(*ast.SliceExpr)
 	b, ok2 := core.Unparen(call.Args[1]).(*ast.SliceExpr)
 	return ok1 && ok2 && isAlias(a.X, 0) && isAlias(b.X, 0) && a.Low == nil && isIdx(a.High) && isIdxPlus1(b.Low) && b.High == nil
+}
+
+// sliceDeletion checks the statements under body that delete one element of the slice held in field `items` of f's
+// receiver against the table of deletion idioms (shift+truncate, append-splice, swap-with-last+truncate); isIdx says
+// whether an expression is the index of the element that must go.
+func sliceDeletion(f *core.Fn, items *types.Var, isIdx func(ast.Expr) bool, body ast.Node) (bool, string, token.Pos) {
+	onStack := map[types.Object]bool{}
+	var isAlias func(e ast.Expr, depth int) bool
+	isAlias = func(e ast.Expr, depth int) bool {
+		e = core.Unparen(e)
+		if core.FieldOf(f.Pkg, e) == items {
+			return true
+		}
+		switch x := e.(type) {
+		case *ast.SliceExpr:
+			return x.Low == nil && x.High == nil && isAlias(x.X, depth+1)
+		case *ast.Ident:
+			o := f.Pkg.TypesInfo.ObjectOf(x)
+			if o == nil {
+				return false
+			}
+			if onStack[o] {
+				return true // x = x[:] and the like
+			}
+			onStack[o] = true
+			defer delete(onStack, o)
+			defs := core.DefsOf(f, o)
+			if len(defs) == 0 {
+				return false
+			}
+			for _, d := range defs {
+				if !isAlias(d, depth+1) {
+					return false
+				}
+			}
+			return true
+		}
+		return false
+	}
+	isIdxPlus1 := func(e ast.Expr) bool {
+		be, ok := core.Unparen(e).(*ast.BinaryExpr)
+		if !ok || be.Op != token.ADD {
+			return false
+		}
+		v := core.ConstOf(f.Pkg, be.Y)
+		return isIdx(be.X) && v != nil && v.ExactString() == "1"
+	}
+	var isLast func(e ast.Expr, depth int) bool
+	isLast = func(e ast.Expr, depth int) bool { // len(L)-1, or a local defined as that
+		if depth > 3 {
+			return false
+		}
+		e = core.Unparen(e)
+		if be, ok := e.(*ast.BinaryExpr); ok && be.Op == token.SUB {
+			v := core.ConstOf(f.Pkg, be.Y)
+			call, isCall := core.Unparen(be.X).(*ast.CallExpr)
+			if v == nil || v.ExactString() != "1" || !isCall || len(call.Args) != 1 {
+				return false
+			}
+			fn, ok := call.Fun.(*ast.Ident)
+			return ok && fn.Name == "len" && isAlias(call.Args[0], 0)
+		}
+		if id, ok := e.(*ast.Ident); ok {
+			o := f.Pkg.TypesInfo.ObjectOf(id)
+			defs := core.DefsOf(f, o)
+			if len(defs) != 1 {
+				return false
+			}
+			return isLast(defs[0], depth+1)
+		}
+		return false
+	}
+	isTruncByOne := func(e ast.Expr) bool {
+		se, ok := core.Unparen(e).(*ast.SliceExpr)
+		return ok && se.Low == nil && se.High != nil && isAlias(se.X, 0) && isLast(se.High, 0)
+	}
+	// collect the statements of the deletion
+	var copyShift, appendDel, swapIn, truncStore, otherStore bool
+	var wrong string
+	var wrongPos token.Pos
+	ast.Inspect(body, func(n ast.Node) bool {
+		switch s := n.(type) {
+		case *ast.ExprStmt:
+			call, ok := s.X.(*ast.CallExpr)
+			if !ok {
+				return true
+			}
+			if fn, ok := call.Fun.(*ast.Ident); ok && fn.Name == "copy" && len(call.Args) == 2 {
+				d, ok1 := core.Unparen(call.Args[0]).(*ast.SliceExpr)
+				sr, ok2 := core.Unparen(call.Args[1]).(*ast.SliceExpr)
+				if ok1 && ok2 && isAlias(d.X, 0) && isAlias(sr.X, 0) {
+					if isIdx(d.Low) && d.High == nil && isIdxPlus1(sr.Low) && sr.High == nil {
+						copyShift = true
+					} else {
+						wrong, wrongPos = "the tail is not shifted onto the matched index (copy(L[i:], L[i+1:]) expected)", s.Pos()
+					}
+				}
+			}
+		case *ast.AssignStmt:
+			if len(s.Lhs) != 1 || len(s.Rhs) != 1 {
+				return true
+			}
+			lhs, rhs := core.Unparen(s.Lhs[0]), core.Unparen(s.Rhs[0])
+			if ie, ok := lhs.(*ast.IndexExpr); ok && isAlias(ie.X, 0) {
+				// element write: only L[i] = L[last] is a deletion step
+				re, ok := rhs.(*ast.IndexExpr)
+				if ok && isAlias(re.X, 0) && isIdx(ie.Index) && isLast(re.Index, 0) {
+					swapIn = true
+				} else {
+					wrong, wrongPos = "an element other than the matched one is overwritten (L[i] = L[len(L)-1] expected, found "+core.ExprString(lhs)+" = "+core.ExprString(rhs)+")", s.Pos()
+				}
+				return true
+			}
+			if core.FieldOf(f.Pkg, lhs) == items {
+				switch {
+				case isTruncByOne(rhs):
+					truncStore = true
+				case isAppendDelete(f, rhs, isAlias, isIdx, isIdxPlus1):
+					appendDel = true
+				case isAlias(rhs, 0):
+					// storing an alias back: neutral
+				default:
+					otherStore = true
+					wrong, wrongPos = "the item list is replaced by "+core.ExprString(rhs)+", which is not a recognised deletion of the matched index", s.Pos()
+				}
+			}
+		}
+		return true
+	})
+	ok := wrong == "" && !otherStore && ((copyShift && truncStore && !swapIn) || (swapIn && truncStore && !copyShift) || (appendDel && !truncStore && !copyShift && !swapIn))
+	pos := body.Pos()
+	if wrongPos.IsValid() {
+		pos = wrongPos
+	}
+	if wrong == "" && !ok {
+		wrong = "the deletion is not one of the recognised idioms (shift+truncate, append(L[:i], L[i+1:]...), swap-with-last+truncate)"
+	}
+	return ok, wrong, pos
 }
